@@ -1,0 +1,5 @@
+//go:build !verif
+
+package utils
+
+func verifEvent(name string, n int) {}
